@@ -41,6 +41,7 @@ type x03mExp struct {
 	RedirPort  string   `json:"redirPort"`
 	ProxyBook  []string `json:"proxyBook"`
 	Bypass     []string `json:"bypass"`
+	PrivKey    string   `json:"privKey"`
 	AdminUID   string   `json:"adminUID"`
 	KeepAlive  string   `json:"keepAlive"`
 	Panel      string   `json:"panel"`
@@ -245,7 +246,7 @@ func x03mFunctions(row *x03mRow, c *x03mConc, cfgPath string, verbose bool) (fs 
 		seen[g] = true
 	}
 	if dup {
-		add("field:BindAddr:ss-duplicate", "BindAddr %v with SS_REMOTE_HOST=%q SS_REMOTE_PORT=%s gives the address list %v: the same address twice (the second net.Listen fails and ck-server exits)",
+		add("field:BindAddr", "BindAddr %v with SS_REMOTE_HOST=%q SS_REMOTE_PORT=%s gives the address list %v: the same address twice (the second net.Listen fails and ck-server exits)",
 			x03mBindList(row.Cfg["BindAddr"], c), x03mSSHost(row.Cfg["SSRemote"]), x03mSSPort(row.Cfg["SSRemote"], c), got)
 	}
 	var uniq []string
@@ -540,11 +541,8 @@ func x03mProcess(row *x03mRow, c *x03mConc, cfgPath string, calib map[string]x03
 		stat("process:timeout")
 		return
 	}
-	key := "field:BindAddr"
-	if dupKey {
-		key = "field:BindAddr:ss-duplicate"
-	}
-	add(key, "BindAddr=%v mode=%s %v: documented listening sockets %v; observed %v, process exited=%v: %s",
+	_ = dupKey
+	add("field:BindAddr", "BindAddr=%v mode=%s %v: documented listening sockets %v; observed %v, process exited=%v: %s",
 		x03mBindList(row.Cfg["BindAddr"], c), row.Cfg["Mode"], env, wantSet, got, exited, ch.tail())
 	return
 }
